@@ -47,16 +47,15 @@ Definition in_i32 (z : Z) : bool := ((i32_min <=? z) && (z <=? i32_max))%Z.
 (* two's-complement reduction into the i32 range *)
 Definition wrap_i32 (z : Z) : Z := ((z + 2147483648) mod 4294967296 - 2147483648)%Z.
 
-Inductive idres := IdPanic | IdValue (z : Z).
+(* i32::saturating_abs: the negation is checked, an overflow (only at i32::MIN) saturates to
+   i32::MAX.  No overflow check is involved, so debug and release builds agree and nothing panics. *)
+Definition saturating_abs_i32 (i : Z) : Z :=
+  if (i <? 0)%Z then (let n := (- i)%Z in if in_i32 n then n else i32_max) else i.
 
-(* unary minus on i32: overflow check in debug builds (panic), wrap in release builds *)
-Definition neg_i32 (release : bool) (i : Z) : idres :=
-  let n := (- i)%Z in
-  if in_i32 n then IdValue n else if release then IdValue (wrap_i32 n) else IdPanic.
-
-(* DigestId(if i.is_negative() { -i } else { i }) *)
-Definition digest_id_new (release : bool) (i : Z) : idres :=
-  if (i <? 0)%Z then neg_i32 release i else IdValue i.
+(* DigestId(i.saturating_abs())  (mso.rs, after the repair of F3, commit 0f19958).
+   The `release` flag (overflow checks off) is threaded through the model for the harness protocol;
+   no modelled site depends on it any more (C09_build_mode_irrelevant). *)
+Definition digest_id_new (release : bool) (i : Z) : Z := saturating_abs_i32 i.
 
 (* rng.gen::<i32>(): next_u32() as i32 *)
 Definition i32_of_word (w : N) : Z := wrap_i32 (Z.of_N w).
@@ -73,7 +72,8 @@ Inductive issue_err :=
 Inductive res (A : Type) :=
 | Ok (a : A)
 | Err (e : issue_err)
-| Panic                            (* DigestId::new: "attempt to negate with overflow" *)
+| Panic                            (* a panic inside isomdl; no modelled site can panic since DigestId::new
+                                      saturates (C09_never_panics) -- kept as an outcome of the protocol *)
 | OutOfTape.
 Arguments Ok {A} a.
 Arguments Err {A} e.
@@ -118,10 +118,8 @@ Fixpoint gen_id (release : bool) (used : list Z) (draws : list N) : res (Z * lis
   match draws with
   | [] => OutOfTape
   | w :: rest =>
-    match digest_id_new release (i32_of_word w) with
-    | IdPanic => Panic
-    | IdValue z => if zmem z used then gen_id release used rest else Ok (z, rest)
-    end
+    let z := digest_id_new release (i32_of_word w) in
+    if zmem z used then gen_id release used rest else Ok (z, rest)
   end.
 
 (* ---------- IssuerSignedItem (issuer_signed.rs) ---------- *)
